@@ -68,3 +68,11 @@ chk('C03', 'model_checking',
     '(touching and collinear sides included) and seeded random scenes (<=8 shapes, <=6 connectors, buffer 0|2, all nudging option combinations, ends inside shapes).',
     'Known findings: F13 (option nudgeOrthogonalSegmentsConnectedToShapes moves free endpoints), F4, F23 (mitred buffer polygon at acute corners), F11 (nudging assertion).',
     'TLA+ declarative route-validity specification (separating-axis predicate); record validation; TLC reachability for the antecedent', '4/C03')
+
+chk('C06', 'model_checking',
+    'RouterApi.tla models the Router as the API user sees it: scene + action queue with the de-duplication rules of addShape/moveShape/deleteShape/modifyConnector, one action per public call, '
+    'transactions on and off; TLC checks for every interleaving (bounded) that the queue stays well formed and that the processed scene is what the calls add up to. Histories are behaviours of that '
+    'specification (TLC simulation) replayed on one long-lived Router; RouterTrace.tla validates call sequence + the scene the code reports at every processing point; RouteInc.tla judges every route at every '
+    'processing point: valid for the final scene (RouteValid), cost(incremental) <= cost(fresh router) as integer-square-root intervals, a no-op transaction changes nothing (bit-exact).',
+    'Rectangular shapes, 3 shapes / 2 connectors, documented preconditions and interior-disjointness as generator rules. The dead selective-reroute test was repaired (fix: commit a8080b2). F4 is a known finding.',
+    'TLA+ API state machine; TLC-generated histories replayed; trace validation; record validation against a fresh router', '4/C06')
